@@ -543,7 +543,9 @@ func DeleteConflicts(uuid dvid.UUID, data DataService, oldParents, newParents []
 			return err
 		}
 		parentsV[i] = oldV
-		if newParents[i] != dvid.NilUUID {
+		// A parent that needed no extension for an earlier data instance comes back as its own "new parent":
+		// it has no extension node yet, and deletions must never be written into the committed parent itself.
+		if newParents[i] != dvid.NilUUID && newParents[i] != oldUUID {
 			newV, err := manager.versionFromUUID(newParents[i])
 			if err != nil {
 				return err
